@@ -127,6 +127,12 @@ func TDExhaustive(full bool) []*TDCase {
 	for _, v := range vals[:3] {
 		kvs = append(kvs, map[string]string{"a_b": v}, map[string]string{"a": v, "b": "a"})
 	}
+	// empty values (a parameter port that only a path function reads may be fed ""; a tag may be attached empty): the
+	// fields that sort after an empty one still tell identities apart
+	kvs = append(kvs, map[string]string{"a": ""})
+	for _, v := range vals[:3] {
+		kvs = append(kvs, map[string]string{"a": "", "b": v}, map[string]string{"a": "", "a_b": "", "c": v})
+	}
 	var out []*TDCase
 	id := 0
 	add := func(c *TDCase) {
